@@ -20,13 +20,9 @@ package main
 import (
 	"errors"
 	"fmt"
-	"go/ast"
-	"go/parser"
-	"go/token"
 	"hash/fnv"
 	"math"
-	"os"
-	"path/filepath"
+	"math/big"
 	"plugin"
 	"reflect"
 	"sort"
@@ -271,12 +267,14 @@ func c19BuildUniverse() {
 		float64(1 << 31), float64(1 << 53), 1e300, math.NaN(), "", "a", "1",
 		[]interface{}{}, []interface{}{1.0}, map[interface{}]interface{}{}, map[interface{}]interface{}{"a": 1.0}, f,
 		// beyond the stated universe: negative out of range, fraction below zero, 2^63, -Inf
-		-129.0, -0.5, 9223372036854775808.0, math.Inf(-1)}
+		-129.0, -0.5, 9223372036854775808.0, math.Inf(-1),
+		// 1.5*2^63: in the range of the 64-bit unsigned kinds only
+		13835058055282163712.0}
 	c19Universe = nil
 	lits := []string{"null", "true", "false", "0", "-1", "1", "1.5", "127", "128", "255", "256",
 		"2147483648", "9007199254740992", "", "", `""`, `"a"`, `"1"`,
 		"[]", "[1]", "{}", `{"a":1}`, "",
-		"-129", "-0.5", "", ""}
+		"-129", "-0.5", "", "", "13835058055282163712"}
 	if len(lits) != len(vals) {
 		panic("C19 universe: literals and values out of step")
 	}
@@ -453,6 +451,20 @@ func c19Sig(t reflect.Type) string {
 
 // c19Oracle is the platform's float→integer conversion for the given kind (the model uses it
 // only where Go leaves the result implementation-defined).
+// c19InRange: the platform's conversion result o (decimal) denotes exactly trunc(f) — which is the case
+// if and only if trunc(f) is representable in the target kind.
+func c19InRange(f float64, o string) bool {
+	if math.IsNaN(f) || math.IsInf(f, 0) {
+		return false
+	}
+	bi, ok := new(big.Int).SetString(o, 10)
+	if !ok {
+		return false
+	}
+	bf, _ := new(big.Float).SetFloat64(math.Trunc(f)).Int(nil)
+	return bi.Cmp(bf) == 0
+}
+
 func c19Oracle(f float64, k reflect.Kind) string {
 	switch k {
 	case reflect.Int:
@@ -557,6 +569,9 @@ func c19Payload(t *c19Target, mode string, idx []int) string {
 			o := "-"
 			if t.ftype != nil && i < t.ftype.NumIn() {
 				o = c19Oracle(f, t.ftype.In(i).Kind())
+				if o != "-" && !c19InRange(f, o) {
+					o += "!" // out of the kind's range: Go leaves the converted value implementation-defined
+				}
 			}
 			tok += ":" + o
 		}
@@ -571,6 +586,7 @@ func c19Args(toks []string) []int {
 	for _, tok := range toks {
 		if strings.HasPrefix(tok, "n:") {
 			tok = tok[:strings.LastIndex(tok, ":")]
+			c19Masked = c19Masked || strings.HasSuffix(toks[len(idx)], "!")
 		}
 		found, ok := c19CanonIdx[tok]
 		if !ok {
@@ -581,7 +597,14 @@ func c19Args(toks []string) []int {
 	return idx
 }
 
+// c19Masked: some argument of the current case is converted out of range — where the function is
+// reached, the values (returned and received) are implementation-defined and only the outcome class is compared.
+var c19Masked bool
+
 func c19RecvStr(opaque bool) string {
+	if c19Reached && c19Masked {
+		return "recv=~"
+	}
 	if !c19Reached {
 		if opaque {
 			return "recv=?" // stdlib functions do not report; the model assumes they were reached iff a value came back
@@ -628,6 +651,7 @@ func c19Run(payload string) (res string) {
 		return "unknown-function"
 	}
 	mode := f[1]
+	c19Masked = false
 	idx := c19Args(f[4:])
 	opaque := t.body == "opaque"
 	c19Reached, c19Recv = false, nil
@@ -635,6 +659,9 @@ func c19Run(payload string) (res string) {
 	val := func(v interface{}) string {
 		if opaque {
 			return "?"
+		}
+		if c19Masked {
+			return "~"
 		}
 		return c19Canon(v, 0)
 	}
@@ -792,262 +819,6 @@ func c19Gen(g *Gen) {
 			sample(t, "D", dExh+2, dSample/2)
 		}
 	}
-}
-
-// ---------------------------------------------------------------- extractor (facts about the source of Run)
-
-// c19Extract writes lean/Ecal/Gen/C19.lean from stdlib/adapter.go.
-func c19Extract(args []string) int {
-	if len(args) != 1 {
-		fmt.Fprintln(os.Stderr, "usage: harness C19 -tool <output.lean>")
-		return 2
-	}
-	fset := token.NewFileSet()
-	file, err := parser.ParseFile(fset, filepath.Join(repoDir(), "stdlib", "adapter.go"), nil, 0)
-	if err != nil {
-		fmt.Fprintln(os.Stderr, err)
-		return 2
-	}
-	var named, deferFirst, callsRecover, assignsErr, arityChecked bool
-	for _, d := range file.Decls {
-		fd, ok := d.(*ast.FuncDecl)
-		if !ok || fd.Name.Name != "Run" || fd.Recv == nil || fd.Body == nil {
-			continue
-		}
-		if st, ok := fd.Recv.List[0].Type.(*ast.StarExpr); !ok || fmt.Sprint(st.X) != "ECALFunctionAdapter" {
-			continue
-		}
-		// the named result of type error
-		errName := ""
-		if fd.Type.Results != nil {
-			for _, r := range fd.Type.Results.List {
-				if id, ok := r.Type.(*ast.Ident); ok && id.Name == "error" && len(r.Names) == 1 {
-					errName = r.Names[0].Name
-				}
-			}
-		}
-		named = errName != "" && errName != "_"
-		if len(fd.Body.List) == 0 {
-			continue
-		}
-		arityChecked = c19ArityChecked(fd)
-		ds, ok := fd.Body.List[0].(*ast.DeferStmt)
-		if !ok {
-			continue
-		}
-		lit, ok := ds.Call.Fun.(*ast.FuncLit)
-		if !ok || len(ds.Call.Args) != 0 {
-			continue
-		}
-		deferFirst = true
-		// if X := recover(); X != nil { …; <errName> = …; … }   directly in the closure body
-		for _, s := range lit.Body.List {
-			is, ok := s.(*ast.IfStmt)
-			if !ok || is.Init == nil {
-				continue
-			}
-			as, ok := is.Init.(*ast.AssignStmt)
-			if !ok || len(as.Lhs) != 1 || len(as.Rhs) != 1 {
-				continue
-			}
-			ce, ok := as.Rhs[0].(*ast.CallExpr)
-			if !ok || fmt.Sprint(ce.Fun) != "recover" || len(ce.Args) != 0 {
-				continue
-			}
-			x, ok := as.Lhs[0].(*ast.Ident)
-			if !ok {
-				continue
-			}
-			callsRecover = true
-			be, ok := is.Cond.(*ast.BinaryExpr)
-			if !ok || be.Op != token.NEQ || fmt.Sprint(be.X) != x.Name || fmt.Sprint(be.Y) != "nil" {
-				continue
-			}
-			for _, bs := range is.Body.List {
-				if a, ok := bs.(*ast.AssignStmt); ok && a.Tok == token.ASSIGN && len(a.Lhs) == 1 &&
-					named && fmt.Sprint(a.Lhs[0]) == errName {
-					assignsErr = true
-				}
-			}
-		}
-	}
-	pluginViaAdapter, perr := c19PluginViaAdapter()
-	if perr != nil {
-		fmt.Fprintln(os.Stderr, perr)
-		return 2
-	}
-	var sb strings.Builder
-	sb.WriteString("import Ecal.Model.Bridge\n")
-	sb.WriteString("/-! GENERATED by `harness C19 -tool <file>` from stdlib/adapter.go — do not edit. -/\n")
-	sb.WriteString("namespace Ecal.Gen.C19\nopen Ecal.Bridge\n\n")
-	sb.WriteString("/-- shape of `func (ea *ECALFunctionAdapter) Run(...) (ret interface{}, err error)` -/\n")
-	sb.WriteString("def runShape : Shape :=\n")
-	sb.WriteString(fmt.Sprintf("  { errIsNamedResult := %v, firstStmtIsDefer := %v, closureCallsRecover := %v, closureAssignsErr := %v,\n    arityChecked := %v }\n",
-		named, deferFirst, callsRecover, assignsErr, arityChecked))
-	sb.WriteString("\n/-- stdlib.go, AddStdlibPluginFunc: every function object it hands to AddStdlibFunc is an\n")
-	sb.WriteString("    `&ECALFunctionAdapter{reflect.ValueOf(f), …}` / `NewECALFunctionAdapter(reflect.ValueOf(f), …)` with `f` a\n")
-	sb.WriteString("    `func(… ...interface{}) (interface{}, error)` closure (and there is at least one such call) -/\n")
-	sb.WriteString(fmt.Sprintf("def pluginViaAdapter : Bool := %v\n", pluginViaAdapter))
-	sb.WriteString("\nend Ecal.Gen.C19\n")
-	if err := os.WriteFile(args[0], []byte(sb.String()), 0644); err != nil {
-		fmt.Fprintln(os.Stderr, err)
-		return 2
-	}
-	return 0
-}
-
-// c19PluginViaAdapter: does AddStdlibPluginFunc register plugin functions only as ECALFunctionAdapter
-// objects wrapping a `func(a ...interface{}) (interface{}, error)` closure (so that every call passes
-// through the recover and the checks of ECALFunctionAdapter.Run)?
-func c19PluginViaAdapter() (bool, error) {
-	fset := token.NewFileSet()
-	file, err := parser.ParseFile(fset, filepath.Join(repoDir(), "stdlib", "stdlib.go"), nil, 0)
-	if err != nil {
-		return false, err
-	}
-	for _, d := range file.Decls {
-		fd, ok := d.(*ast.FuncDecl)
-		if !ok || fd.Name.Name != "AddStdlibPluginFunc" || fd.Recv != nil || fd.Body == nil {
-			continue
-		}
-		// closures of the plugin shape assigned to a local name
-		isShape := func(ft *ast.FuncType) bool {
-			if ft.Params == nil || len(ft.Params.List) != 1 || ft.Results == nil || len(ft.Results.List) != 2 {
-				return false
-			}
-			el, ok := ft.Params.List[0].Type.(*ast.Ellipsis)
-			if !ok {
-				return false
-			}
-			isEmptyIface := func(e ast.Expr) bool {
-				it, ok := e.(*ast.InterfaceType)
-				return ok && (it.Methods == nil || len(it.Methods.List) == 0)
-			}
-			return isEmptyIface(el.Elt) && isEmptyIface(ft.Results.List[0].Type) && fmt.Sprint(ft.Results.List[1].Type) == "error"
-		}
-		shaped := map[string]bool{}
-		ast.Inspect(fd.Body, func(n ast.Node) bool {
-			if as, ok := n.(*ast.AssignStmt); ok && len(as.Lhs) == 1 && len(as.Rhs) == 1 {
-				if lit, ok := as.Rhs[0].(*ast.FuncLit); ok && isShape(lit.Type) {
-					shaped[fmt.Sprint(as.Lhs[0])] = true
-				}
-			}
-			return true
-		})
-		wrapsShape := func(e ast.Expr) bool { // reflect.ValueOf(<shaped closure>)
-			ce, ok := e.(*ast.CallExpr)
-			if !ok || fmt.Sprint(ce.Fun) != "&{reflect ValueOf}" || len(ce.Args) != 1 {
-				return false
-			}
-			if lit, ok := ce.Args[0].(*ast.FuncLit); ok {
-				return isShape(lit.Type)
-			}
-			return shaped[fmt.Sprint(ce.Args[0])]
-		}
-		isAdapter := func(e ast.Expr) bool {
-			if ue, ok := e.(*ast.UnaryExpr); ok && ue.Op == token.AND {
-				if cl, ok := ue.X.(*ast.CompositeLit); ok && fmt.Sprint(cl.Type) == "ECALFunctionAdapter" && len(cl.Elts) >= 1 {
-					first := cl.Elts[0]
-					if kv, ok := first.(*ast.KeyValueExpr); ok {
-						first = nil
-						for _, el := range cl.Elts {
-							if kv2, ok := el.(*ast.KeyValueExpr); ok && fmt.Sprint(kv2.Key) == "funcval" {
-								first = kv2.Value
-							}
-						}
-						_ = kv
-					}
-					return first != nil && wrapsShape(first)
-				}
-			}
-			if ce, ok := e.(*ast.CallExpr); ok && fmt.Sprint(ce.Fun) == "NewECALFunctionAdapter" && len(ce.Args) == 2 {
-				return wrapsShape(ce.Args[0])
-			}
-			return false
-		}
-		calls, good := 0, 0
-		ast.Inspect(fd.Body, func(n ast.Node) bool {
-			ce, ok := n.(*ast.CallExpr)
-			if !ok {
-				return true
-			}
-			fn := fmt.Sprint(ce.Fun)
-			if fn == "AddStdlibFunc" && len(ce.Args) == 3 {
-				calls++
-				if isAdapter(ce.Args[2]) {
-					good++
-				}
-			}
-			return true
-		})
-		// nothing else in the function may write the function map directly
-		direct := false
-		ast.Inspect(fd.Body, func(n ast.Node) bool {
-			if id, ok := n.(*ast.Ident); ok && id.Name == "internalStdlibFuncMap" {
-				direct = true
-			}
-			return true
-		})
-		return calls >= 1 && calls == good && !direct, nil
-	}
-	return false, nil
-}
-
-// c19ArityChecked: does Run reject surplus arguments by an explicit check that returns (nil, <error>)?
-// Accepted shapes: the first statement of the `for K, _ := range args` loop is
-// `if K == X.NumIn() {…}` / `if K >= X.NumIn() {…}`, or a statement before that loop is
-// `if len(args) > X.NumIn() {…}`; in both the block ends in `return nil, <non-nil expression>`.
-func c19ArityChecked(fd *ast.FuncDecl) bool {
-	if fd.Type.Params == nil || len(fd.Type.Params.List) == 0 {
-		return false
-	}
-	last := fd.Type.Params.List[len(fd.Type.Params.List)-1]
-	if len(last.Names) == 0 {
-		return false
-	}
-	argsName := last.Names[len(last.Names)-1].Name
-	isNumIn := func(e ast.Expr) bool {
-		ce, ok := e.(*ast.CallExpr)
-		if !ok || len(ce.Args) != 0 {
-			return false
-		}
-		se, ok := ce.Fun.(*ast.SelectorExpr)
-		return ok && se.Sel.Name == "NumIn"
-	}
-	returnsErr := func(b *ast.BlockStmt) bool {
-		if len(b.List) == 0 {
-			return false
-		}
-		rs, ok := b.List[len(b.List)-1].(*ast.ReturnStmt)
-		return ok && len(rs.Results) == 2 && fmt.Sprint(rs.Results[0]) == "nil" && fmt.Sprint(rs.Results[1]) != "nil"
-	}
-	for _, s := range fd.Body.List {
-		switch st := s.(type) {
-		case *ast.IfStmt:
-			be, ok := st.Cond.(*ast.BinaryExpr)
-			if ok && st.Init == nil && be.Op == token.GTR && isNumIn(be.Y) && returnsErr(st.Body) {
-				if ce, ok := be.X.(*ast.CallExpr); ok && fmt.Sprint(ce.Fun) == "len" && len(ce.Args) == 1 && fmt.Sprint(ce.Args[0]) == argsName {
-					return true
-				}
-			}
-		case *ast.RangeStmt:
-			if fmt.Sprint(st.X) != argsName {
-				continue
-			}
-			key, ok := st.Key.(*ast.Ident)
-			if !ok || len(st.Body.List) == 0 {
-				return false
-			}
-			is, ok := st.Body.List[0].(*ast.IfStmt)
-			if !ok || is.Init != nil {
-				return false
-			}
-			be, ok := is.Cond.(*ast.BinaryExpr)
-			return ok && (be.Op == token.EQL || be.Op == token.GEQ) && fmt.Sprint(be.X) == key.Name &&
-				isNumIn(be.Y) && returnsErr(is.Body)
-		}
-	}
-	return false
 }
 
 func init() {
